@@ -30,7 +30,8 @@ type Script struct {
 	NilOpts     bool     `json:"nil_opts"`
 	Required    []string `json:"required"`
 	Granted     []string `json:"granted"`
-	ExpKind     string   `json:"exp_kind"`   // zero | rel | epoch
+	ExpKind     string   `json:"exp_kind"`   // zero | rel | epoch | far
+	FarYear     int      `json:"far_year,omitempty"` // far: the expiry is 31 December of this year (a "never expires" sentinel)
 	ExpRelNS    int64    `json:"exp_rel_ns"` // expiration = now + rel
 	StripMono   bool     `json:"strip_mono"`
 	SkewNS      int64    `json:"skew_ns"`
@@ -100,6 +101,10 @@ func genScript(rt *rapid.T) Script {
 		s.ExpKind = "zero"
 	} else if k == 2 {
 		s.ExpKind = "epoch" // an expiry that is set: 1970-01-01T00:00:00Z, as time.Unix(0, 0) gives it
+	} else if k == 3 {
+		// an expiry centuries away, as issuers write "never expires" (9999-12-31), beyond what a time.Duration can hold
+		s.ExpKind = "far"
+		s.FarYear = rapid.SampledFrom(farYears).Draw(rt, "far_year")
 	} else {
 		s.ExpKind = "rel"
 		base := rapid.SampledFrom([]int64{0, -s.SkewNS, s.SkewNS, -int64(time.Hour), int64(time.Hour), -int64(365 * 24 * time.Hour), s.VerifyNS - s.SkewNS, s.VerifyNS - s.SkewNS, s.VerifyNS}).Draw(rt, "expbase")
@@ -288,12 +293,19 @@ func contains(xs []string, x string) bool {
 	return false
 }
 
+// farYears: expiry years far beyond the present (the bubble's clock starts in 2000): within and beyond the
+// 292 years a time.Duration can span.
+var farYears = []int{2250, 2300, 2999, 9999}
+
 // runInBubble executes one case; it must be called inside a bubble (time.Now is the fake clock).
 func runCase(s Script) (res vt.Result) {
 	now := time.Now()
 	var exp time.Time
 	if s.ExpKind == "epoch" {
 		exp = time.Unix(0, 0)
+	}
+	if s.ExpKind == "far" {
+		exp = time.Date(s.FarYear, 12, 31, 23, 59, 59, 0, time.UTC)
 	}
 	if s.ExpKind == "rel" {
 		exp = now.Add(time.Duration(s.ExpRelNS))
@@ -398,6 +410,9 @@ func runCase(s Script) (res vt.Result) {
 	} else if s.ExpKind == "epoch" {
 		expiryOK = false // decades past, whatever the tolerance; only an unset expiry is covered by AllowMissingExpiration
 		res.Class("expiry_at_the_unix_epoch")
+	} else if s.ExpKind == "far" {
+		expiryOK = true // centuries ahead of the bubble's clock, whatever the tolerance
+		res.Class("expiry_centuries_ahead")
 	} else {
 		// unexpired within skew at the moment of the decision (after the verifier took VerifyNS):
 		// exp + skew >= now + verify  <=>  rel + skew - verify >= 0
@@ -578,11 +593,14 @@ func TestC14_Enum(t *testing.T) {
 							for _, nilOpts := range []bool{false, true} {
 								var exps []Script
 								exps = append(exps, Script{ExpKind: "zero"})
+								for _, y := range farYears {
+									exps = append(exps, Script{ExpKind: "far", FarYear: y})
+								}
 								for _, d := range deltas {
 									exps = append(exps, Script{ExpKind: "rel", ExpRelNS: -skew + d}, Script{ExpKind: "rel", ExpRelNS: d, StripMono: true})
 								}
 								for _, e := range exps {
-									s := Script{Headers: h, Verifier: v, NilOpts: nilOpts, Required: sc[0], Granted: sc[1], ExpKind: e.ExpKind, ExpRelNS: e.ExpRelNS, StripMono: e.StripMono, SkewNS: skew, AllowMiss: allow, MetaURL: "https://rs.example/prm", InnerCode: 200}
+									s := Script{Headers: h, Verifier: v, NilOpts: nilOpts, Required: sc[0], Granted: sc[1], ExpKind: e.ExpKind, FarYear: e.FarYear, ExpRelNS: e.ExpRelNS, StripMono: e.StripMono, SkewNS: skew, AllowMiss: allow, MetaURL: "https://rs.example/prm", InnerCode: 200}
 									cells++
 									res := runCase(s)
 									if len(res.Violations) > 0 {
